@@ -1,15 +1,18 @@
-//! Conformance harness (see /verif/CONVENTIONS.md).
-//!   <bin> replay <model> <cases.ndjson> --summary <out.json>
-//!   <bin> record <model> --seed S --out <trace.ndjson> --summary <out.json>
+//! Conformance harness of lumina-utils (see /verif/CONVENTIONS.md).
+//!   h-utils record executor --plans <plans.ndjson> --seed S --out <trace.ndjson> --summary <out.json>
 
 use h_common::{tool_error, Args};
+
+mod executor;
 
 fn main() {
     let args = Args::from_env();
     let mode = args.pos(0).to_string();
     let model = args.pos(1).to_string();
     h_common::quiet_panics();
-    match (mode.as_str(), model.as_str()) {
+    let s = match (mode.as_str(), model.as_str()) {
+        ("record", "executor") => executor::record(&args),
         _ => tool_error(&format!("unknown mode/model {mode}/{model}")),
-    }
+    };
+    s.write(args.opt("summary").unwrap_or_else(|| tool_error("--summary missing")));
 }
